@@ -277,3 +277,128 @@ func TestC07_EnumSafeManagerOperators(t *testing.T) {
 		}
 	})
 }
+
+// ---------------------------------------------------------------------------------------
+// One manager object over a history of conversions, every result kept by the caller. A result belongs to the caller
+// for good: whatever the manager does later - conversions that fail, conversions of other values, conversions of
+// earlier results - a value handed out before still is what it was when it was returned.
+
+type c07Step struct {
+	V      val    `json:"v"`
+	Target string `json:"target"`
+	From   int    `json:"from"` // -1: a fresh variant built from V; k >= 0: the k-th kept result (mod their number) is the source
+}
+
+type c07HistCase struct {
+	Safe  bool      `json:"safe"`
+	Steps []c07Step `json:"steps"`
+}
+
+func checkC07Hist(c c07HistCase) *evid.Fail {
+	ops := opsManager(c.Safe)
+	mgr := "type-unsafe"
+	if c.Safe {
+		mgr = "type-safe"
+	}
+	type kept struct {
+		v    *variants.Variant
+		was  val
+		step int
+	}
+	var held []kept
+	for i, s := range c.Steps {
+		var src *variants.Variant
+		srcVal := s.V
+		if s.From >= 0 && len(held) > 0 {
+			k := held[s.From%len(held)]
+			src, srcVal = k.v, k.was
+		} else {
+			src = s.V.toVariant()
+		}
+		var got *variants.Variant
+		var err error
+		desc := fmt.Sprintf("step %d of %d on one %s manager: Convert(%s, %s)", i, len(c.Steps), mgr, srcVal, s.Target)
+		if g := guard(func() { got, err = ops.Convert(src, kindToType[s.Target]) }); g != nil {
+			g.Msg = desc + ": " + g.Msg
+			return g
+		}
+		cell := srcVal.K + ">" + s.Target
+		if got == nil && err == nil {
+			return evid.F("neither-result-nor-error:"+cell, "%s returned (nil, nil)", desc)
+		}
+		if got != nil && err != nil {
+			return evid.F("both-result-and-error:"+cell, "%s returned a value and %v", desc, err)
+		}
+		if !equalVal(fromVariant(src), srcVal) {
+			return evid.F("source-mutated:"+cell, "%s changed its source to %s", desc, fromVariant(src))
+		}
+		want := refConvert(srcVal, s.Target, c.Safe)
+		switch {
+		case err != nil && want.St == refExact:
+			return evid.F("history:error-for-defined-conversion:"+cell, "%s failed with %v, expected %s", desc, err, want.V)
+		case err == nil && want.St == refMustError:
+			return evid.F("history:conversion-must-fail:"+cell, "%s = %s, but %s", desc, fromVariant(got), want.Why)
+		case err == nil && want.St == refExact && !equalVal(fromVariant(got), want.V):
+			return evid.F("history:wrong-value:"+cell, "%s = %s, expected %s", desc, fromVariant(got), want.V)
+		}
+		// everything handed out earlier still is what it was
+		for _, k := range held {
+			if k.v == got {
+				continue // the source itself comes back for Object / own type
+			}
+			if now := fromVariant(k.v); !equalVal(now, k.was) {
+				return evid.F("earlier-result-changed", "%s: the result of step %d was %s and now is %s", desc, k.step, k.was, now)
+			}
+		}
+		if err == nil {
+			held = append(held, kept{got, fromVariant(got), i})
+		}
+	}
+	return nil
+}
+
+func init() { regReplay("C07.hist", checkC07Hist) }
+
+func c07HistNonTrivial(c c07HistCase) bool {
+	failed, after := false, 0
+	for _, s := range c.Steps {
+		if s.From < 0 {
+			if refConvert(s.V, s.Target, c.Safe).St == refMustError {
+				failed = true
+			} else if failed {
+				after++
+			}
+		}
+	}
+	return after >= 2
+}
+
+func TestC07_RapidHistories(t *testing.T) {
+	rec := evid.New("C07", "TestC07_RapidHistories", "C07.hist", "histories of 2..12 conversions on ONE manager object (fresh values and earlier results as sources, failing conversions in between), every result kept by the caller: each step against the reference conversion table, and after each step every result handed out earlier still has the value it was returned with; non-trivial = a conversion the reference rejects followed by at least two others; distinct by case")
+	defer finish(t, rec)
+	runRapid(t, pick(20000, 150000), 777, func(rt *rapid.T) {
+		c := c07HistCase{Safe: rapid.IntRange(0, 3).Draw(rt, "safe") == 0}
+		n := rapid.IntRange(2, 12).Draw(rt, "n")
+		for i := 0; i < n; i++ {
+			s := c07Step{From: -1, Target: rapid.SampledFrom(allKinds).Draw(rt, "target")}
+			switch rapid.IntRange(0, 9).Draw(rt, "how") {
+			case 0, 1:
+				s.From = rapid.IntRange(0, 11).Draw(rt, "from")
+				s.V = vNull()
+			case 2:
+				// a conversion no manager offers
+				s.V = rapid.SampledFrom([]val{vFloat(1.5), vString("abc"), vArray(vInt(1)), vBool(true)}).Draw(rt, "odd")
+				s.Target = rapid.SampledFrom([]string{"datetime", "array", "timespan"}).Draw(rt, "oddTarget")
+			default:
+				s.V = genValue(rt, 1)
+			}
+			c.Steps = append(c.Steps, s)
+		}
+		rec.Case(jsonStr(c), c07HistNonTrivial(c), func() interface{} { return c }, fmt.Sprintf("safe:%v", c.Safe))
+		if f := checkC07Hist(c); f != nil {
+			if rec.Fail(f, c) {
+				rt.Fatalf("%v", f)
+			}
+		}
+	})
+}
